@@ -944,6 +944,58 @@ class Interp:
     def spec_exists(self, n, env):
         return self._quant(n, env, False)
 
+    def spec_exists_fn(self, n, env):
+        """exists_fn(p, body): there is a function p: int -> int with body (p is applied as p(j) in body).
+        Assumed (positive): p is a fresh function symbol.  Proved (positive): the disjunction over explicit
+        candidate witnesses -- the contract's `witnesses[p]` lambdas (evaluated over the function's current
+        locals), the permutations produced by sorted()/list.sort() on this path, and the identity; each
+        disjunct implies the existential, so this is sound (possibly incomplete).  Negative occurrences are
+        not supported."""
+        name = n.args[0].id
+        if not self.polarity:
+            raise Unsupported("exists_fn in a negative position")
+        if self.assume_mode:
+            if self.q_ctx:
+                raise Unsupported("exists_fn under a quantifier in an assumed clause")
+            fn = z3.Function(self.path.fresh_name("sk_" + name), z3.IntSort(), z3.IntSort())
+            cands = [fn]
+        else:
+            cands = []
+            c = self.cur_contract
+            top = getattr(self, "top_env", None)
+            for src in (getattr(c, "witnesses", None) or {}).get(name, []) if c is not None else []:
+                try:
+                    cands.append(self.ev(self.ver.parse_spec(src), top))
+                except (Unsupported, PyRaise, SpecUndef):
+                    continue
+            cands.extend(list(getattr(self.path, "fn_witnesses", []))[-3:])
+            cands.append(None)
+        outs = []
+        saved = self.binders.get(name, _MISSING)
+        try:
+            for cand in cands:
+                if cand is None:
+                    f = VFunc("builtin", name, impl=lambda I, args, kw: args[0])
+                elif isinstance(cand, VFunc):
+                    f = cand
+                else:
+                    f = VFunc("builtin", name, impl=lambda I, args, kw, cand=cand: VInt(cand(to_int(args[0]))))
+                self.binders[name] = f
+                try:
+                    outs.append(self.truth(self.ev(n.args[1], env)))
+                except SpecUndef:
+                    continue
+                except Unsupported:
+                    if isinstance(cand, VFunc) and not self.assume_mode:
+                        continue   # a witness hint that mentions a local not bound on this path
+                    raise
+        finally:
+            if saved is _MISSING:
+                self.binders.pop(name, None)
+            else:
+                self.binders[name] = saved
+        return VBool(z3.Or(outs) if outs else z3.BoolVal(False))
+
     def spec_implies(self, n, env):
         pol = self.polarity
         self.polarity = False
@@ -1637,6 +1689,27 @@ class Interp:
                     self.havoc_inplace(v, "lm")
             except Unsupported:
                 raise
+        self.havoc_ghost_targets(s, env)
+
+    def havoc_ghost_targets(self, s, env):
+        """ghost variables written by the `effects*` statements of any registered function contract are not
+        visible in the loop body's AST: an iteration that performs a call may change them, so they are havoc'd
+        at the loop cut too (the invariant has to describe them).  Oracles nobody writes (`clock`) are kept."""
+        genv = getattr(self, "ghost_env", None)
+        if genv is None or not genv.vars:
+            return
+        if not any(isinstance(x, ast.Call) for st in list(s.body) + list(s.orelse) for x in ast.walk(st)):
+            return
+        for nm in sorted(self.ver.ghost_written_names()):
+            cur = genv.vars.get(nm)
+            if cur is None:
+                continue
+            if isinstance(cur, (VSeq, VMap, VSet, VObj, VDictRec)):
+                self.havoc_inplace(cur, "gh_" + nm)
+            elif isinstance(cur, (VFunc, VClass, VModule, VOpaque)):
+                continue
+            else:
+                genv.vars[nm] = self.fresh_value(typeof(cur), "gh_" + nm)
 
     def ex_For(self, s, env):
         from . import builtins as B
